@@ -94,11 +94,15 @@ package subscribe
 //@   requires s != nil && s.c != nil && StreamClientWf(c)
 //@   modifies ghost syncInserts, ghost leafInserts, ghost lastInsertWasSync, ghost syncOffers, ghost leafOffers, sends(c.errC)
 //@   invariant 0: syncInserts == old(syncInserts) && syncOffers == old(syncOffers) && err == nil && sends(c.errC) == old(sends(c.errC))
+//@     && hits("call (*Cache).Query#0") - old(hits("call (*Cache).Query#0")) == $i && $i <= len($range) && $range == Subs(c.sr)
 //@   ensures [at-most-one-sync C05] syncInserts == old(syncInserts) || (syncInserts == old(syncInserts) + 1 && lastInsertWasSync)
 //@   ensures [marker-queued-unless-an-error-is-reported C05 C04] sends(c.errC) == old(sends(c.errC)) ==> syncOffers == old(syncOffers) + 1 && syncInserts == old(syncInserts) + 1
 //@   ensures [marker-offered-at-most-once C05] syncOffers == old(syncOffers) || syncOffers == old(syncOffers) + 1
 //@   ensures [only-an-error-is-reported-and-once C05] sends(c.errC) == old(sends(c.errC)) || (sends(c.errC) == old(sends(c.errC)) + 1 && lastsent(c.errC) != nil)
 //@   ensures [updates-only-skips-walk C04] UpdatesOnly(c.sr) ==> leafInserts == old(leafInserts)
+//@   ensures [every-subscription-path-is-walked-unless-an-error-is-reported C05 C04] sends(c.errC) == old(sends(c.errC)) && !UpdatesOnly(c.sr)
+//@     ==> hits("call (*Cache).Query#0") - old(hits("call (*Cache).Query#0")) == len(Subs(c.sr))
+//@ pred Subs(r *pb.SubscribeRequest) := r.Request.(*pb.SubscribeRequest_Subscribe).Subscribe.Subscription
 //@ pred UpdatesOnly(r *pb.SubscribeRequest) := isa(r.Request.(*pb.SubscribeRequest_Subscribe)) && payload(r.Request) != nil
 //@   && r.Request.(*pb.SubscribeRequest_Subscribe).Subscribe != nil && r.Request.(*pb.SubscribeRequest_Subscribe).Subscribe.UpdatesOnly
 
